@@ -143,6 +143,11 @@ func runFaultInjection(f lib.Flags, res *lib.Result, g *lib.ChainGen, dstNew boo
 		switch {
 		case panicked:
 			res.Violate(lib.Violation{Sig: "store-panics:fault-injection", What: fmt.Sprintf("Store panics when batch operation %d of %d fails (%s backend): %v", k, total, backend, err), Replay: rp})
+		case err == nil && fd.ops.Load() < k:
+			// the fault was never injected: this run of Store performed fewer batch operations than the counting run
+			// (the legacy state update's number of puts varies by one between runs of the same block — scheduling of
+			// its worker goroutines); nothing failed, so nothing is to be judged
+			res.Hit("fault-injection-position-not-reached-" + backend)
 		case err == nil:
 			res.Violate(lib.Violation{Sig: "store-ignores-failed-batch-write",
 				What: fmt.Sprintf("batch operation %d of %d of the valid block's Store failed (%s backend) and Store returned nil", k, total, backend), Replay: rp})
